@@ -341,33 +341,46 @@ def zeroSeek (pos nBits : Nat) (bitOff : Int) (w : Whence) : Out :=
 
 /-! ### bitio.IOReader / IOReadSeeker (ioreader.go, ioreadseeker.go) -/
 
+/-- ioreader.go:29-38: while no error is pending, read len(p)*8 bits from the source into the bit buffer -/
+def ioFill (sub : Sub) (n : Nat) (r : Rd) (rErr : Option Err) (buf : Buffer) (q : Nat) :
+    Outcome (Rd × Option Err × Buffer × Nat) :=
+  if rErr = none then do
+    let (r, res) ← sub r (.read (n * 8))
+    let buf ← buf.writeBits (packR res.bits) res.bits.length
+    pure (r, res.err, buf, q ||| res.q)
+  else pure (r, rErr, buf, q)
+
+/-- ioreader.go:40-70: deliver whole bytes, or the zero padded last partial byte / the pending error;
+    `none` = neither (fewer than 8 bits buffered and no error): go round the loop again -/
+def ioDrain (seekable : Bool) (sPos : Int) (n : Nat) (r : Rd) (rErr : Option Err) (buf : Buffer) (q : Nat) :
+    Outcome (Option (Rd × Res)) :=
+  if buf.len ≥ 8 then do
+    -- :40-53 read whole bytes
+    let bBits := buf.len
+    let aBits := bBits - bBits % 8
+    let rBits := if n * 8 > aBits then aBits else n * 8
+    let (buf, p, rn, e) ← buf.readBits rBits
+    let k := rn / 8
+    pure (some (.ioBytes r seekable rErr buf (sPos + k), { n := k, bytes := p.take k, err := e, q := q }))
+  else if rErr ≠ none then
+    if rErr = some .eof ∧ buf.len > 0 then
+      -- :55-66 the last partial byte, zero padded
+      if n = 0 then pure (some (.ioBytes r seekable rErr buf sPos, { q := q })) else do
+      let (buf, p, _, e) ← buf.readBits buf.len
+      if e.isSome then pure (some (.ioBytes r seekable rErr buf sPos, { err := e, q := q }))
+      else pure (some (.ioBytes r seekable rErr buf (sPos + 1), { n := 1, bytes := p.take 1, err := rErr, q := q }))
+    else pure (some (.ioBytes r seekable rErr buf sPos, { err := rErr, q := q }))
+  else pure none
+
+/-- IOReader.Read (ioreader.go:24-72) -/
 def ioBytesReadLoop (sub : Sub) (seekable : Bool) (sPos : Int) (n : Nat) :
     (fuel : Nat) → (r : Rd) → (rErr : Option Err) → (buf : Buffer) → (q : Nat) → Out
   | 0, _, _, _, _ => hang
   | fuel+1, r, rErr, buf, q => do
-    -- ioreader.go:29-38
-    let (r, rErr, buf, q) ← (if rErr = none then do
-        let (r, res) ← sub r (.read (n * 8))
-        let buf ← buf.writeBits (packR res.bits) res.bits.length
-        pure (r, res.err, buf, q ||| res.q)
-      else pure (r, rErr, buf, q) : Outcome (Rd × Option Err × Buffer × Nat))
-    if buf.len ≥ 8 then
-      -- :40-53 read whole bytes
-      let bBits := buf.len
-      let aBits := bBits - bBits % 8
-      let rBits := if n * 8 > aBits then aBits else n * 8
-      let (buf, p, rn, e) ← buf.readBits rBits
-      let k := rn / 8
-      ok (.ioBytes r seekable rErr buf (sPos + k), { n := k, bytes := p.take k, err := e, q := q })
-    else if rErr ≠ none then
-      if rErr = some .eof ∧ buf.len > 0 then
-        -- :55-66 the last partial byte, zero padded
-        if n = 0 then ok (.ioBytes r seekable rErr buf sPos, { q := q }) else do
-        let (buf, p, _, e) ← buf.readBits buf.len
-        if e.isSome then ok (.ioBytes r seekable rErr buf sPos, { err := e, q := q })
-        else ok (.ioBytes r seekable rErr buf (sPos + 1), { n := 1, bytes := p.take 1, err := rErr, q := q })
-      else ok (.ioBytes r seekable rErr buf sPos, { err := rErr, q := q })
-    else ioBytesReadLoop sub seekable sPos n fuel r rErr buf q
+    let (r, rErr, buf, q) ← ioFill sub n r rErr buf q
+    match ← ioDrain seekable sPos n r rErr buf q with
+    | some x => ok x
+    | none => ioBytesReadLoop sub seekable sPos n fuel r rErr buf q
 
 def ioBytesSeek (sub : Sub) (r : Rd) (rErr : Option Err) (buf : Buffer) (sPos : Int) (off : Int) (w : Whence) : Out := do
   let _ := rErr
